@@ -58,7 +58,7 @@ def sh(cmd, cwd=None, timeout=None, env=None):
 
 
 class Ctx:
-    def __init__(self, prop, tier, seed):
+    def __init__(self, prop, tier, seed, clean=True):
         self.prop = prop
         self.tier = tier
         self.seed = seed
@@ -71,7 +71,8 @@ class Ctx:
         self.coverage = {}
         self.assumptions = []
         import glob
-        for f in glob.glob(os.path.join(VERIF, "replay", "%s_*_%d.json" % (prop, seed))):
+        # a run starts from an empty replay slot; a replay must of course keep the file it is given
+        for f in (glob.glob(os.path.join(VERIF, "replay", "%s_*_%d.json" % (prop, seed))) if clean else []):
             try:
                 os.remove(f)
             except OSError:
